@@ -392,6 +392,7 @@ class Cmp:
         reqs = [s for s in scn["steps"] if s["op"] == "req"]
         if "build_err" in meta or "build_panic" in meta:
             self.bad(scn, seen, "session_lost", "attach", expected="an attached session",
+                     error=str(meta.get("build_err") or meta.get("build_panic")),
                      actual=meta.get("build_err") or meta.get("build_panic"))
             return
         guess_ok = True
